@@ -71,22 +71,28 @@ def _accuracy_job(job):
         # unequal tolerances on a small-amplitude solution: the relative part must be the one that scales with |y|
         rtol, atol = tol, tol * 1e-9
         y0 = [2.0 ** -20]
+    if case["problem"] == "pair":
+        rtol, atol = tol, tol * 1e-9
+        y0 = [3.0, 1.0, 2.0 ** -20]
     sc = gen.base(m, 0.0, T, dt0, rtol=rtol, atol=atol, problem=case["problem"], y0=y0)
     rtol, atol = sc["rtol"], sc["atol"]      # gen.base bounds the tolerance per method
     try:
         r = scen.run_plain(sc)
     except Exception as e:   # noqa
         r = {"ok": False, "t": [0.0], "y": [[float("nan")]]}
-    exact = Fraction(case["num"], case["den"])
+    exacts = [Fraction(c["num"], c["den"]) for c in case["comps"]]
     ok = bool(r["ok"])
-    y = r["y"][-1][0] if ok else float("nan")
-    if ok and np.isfinite(y):
-        err = abs(num.frac(y) - exact)
-        eu = int(min(num.CAP, math.ceil(err / (Fraction(atol) + Fraction(rtol) * abs(exact)))))
+    ys = [r["y"][-1][i] for i in range(len(exacts))] if ok else [float("nan")]
+    if ok and all(np.isfinite(y) for y in ys):
+        # the worst component, each in units of its own (atol + rtol |y_i|)
+        eu = 0
+        for y, exact in zip(ys, exacts):
+            err = abs(num.frac(y) - exact)
+            eu = max(eu, int(min(num.CAP, math.ceil(err / (Fraction(atol) + Fraction(rtol) * abs(exact))))))
         endu = num.gap_units(r["t"][-1], T, [T], np.float64)
     else:
         eu, endu = num.CAP, num.CAP
-    return {"problem": case["problem"], "k": case["k"], "num": case["num"], "den": case["den"], "ok": ok, "errUnits": eu,
+    return {"problem": case["problem"], "k": case["k"], "num": case["num"], "den": case["den"], "comps": case["comps"], "ok": ok, "errUnits": eu,
             "endUnits": endu, "method": str(m), "tol": tol, "dt0": dt0, "steps": len(r["t"]) - 1}
 
 
@@ -159,4 +165,5 @@ def check(run, replay=None):
         integreplay.phase(run, "C05", ('AttemptedSteps', 'Outcome', 'ReturnedStep', 'ProposedStep', 'ControllerCalls', 'CachedSlopeBelongsToNewState'))
     run.assumptions += ["accuracy is decided on problems with rational solutions only (the specification cannot supply exp or sin): "
                         "'modest constant' = ModestK = 10 units of (atol + rtol|y|) times the amplification bound of the problem",
-                        "random linear systems with exponential solutions are not covered (DESIGN.md section 10)"]
+                        "random linear systems with exponential solutions are not covered (DESIGN.md section 10); the coupled "
+                        "three-component problem 'pair' (magnitudes 3, 1, 2^-20) stands in for multi-component systems"]
